@@ -204,13 +204,17 @@ example : verdictPoolFromOpts fixed cfgE ordE ordE false false [0, 1, 0, 1, 1, 0
 def expsO : List Exp := mkExps [cfgN, cfgE] [ord1, ordE]
 
 theorem expsO_wf : MWF expsO := by
-  refine ⟨by decide, ?_⟩
-  intro x hx
-  simp only [expsO, mkExps, withCarried, List.zip_cons_cons, List.zip_nil_right, List.zipIdx_cons, List.zipIdx_nil,
-    List.map_cons, List.map_nil, List.mem_cons, List.not_mem_nil, or_false] at hx
-  rcases hx with rfl | rfl
-  · exact ⟨⟨by decide, by decide, by decide, fun _ => Iff.rfl, fun _ _ h => h⟩, ⟨rfl, rfl, rfl⟩, by decide⟩
-  · exact ⟨⟨cfgE_wf.nd, cfgE_wf.mnd, cfgE_wf.bnd, cfgE_wf.m_iff, cfgE_wf.b_sub⟩, ⟨rfl, rfl, rfl⟩, by decide⟩
+  refine ⟨by decide, ?_, ?_⟩
+  · intro x hx
+    simp only [expsO, mkExps, withCarried, List.zip_cons_cons, List.zip_nil_right, List.zipIdx_cons, List.zipIdx_nil,
+      List.map_cons, List.map_nil, List.mem_cons, List.not_mem_nil, or_false] at hx
+    rcases hx with rfl | rfl
+    · exact ⟨⟨by decide, by decide, by decide, fun _ => Iff.rfl, fun _ _ h => h⟩, rfl, by decide⟩
+    · exact ⟨⟨cfgE_wf.nd, cfgE_wf.mnd, cfgE_wf.bnd, cfgE_wf.m_iff, cfgE_wf.b_sub⟩, rfl, by decide⟩
+  · intro x hx y hy
+    simp only [expsO, mkExps, withCarried, List.zip_cons_cons, List.zip_nil_right, List.zipIdx_cons, List.zipIdx_nil,
+      List.map_cons, List.map_nil, List.mem_cons, List.not_mem_nil, or_false] at hx hy
+    rcases hx with rfl | rfl <;> rcases hy with rfl | rfl <;> exact ⟨rfl, rfl⟩
 
 -- `resume_correct_multi` over the extended configuration space: 2 + 61 + 260 events, killed inside the merge of the exon
 -- counts of the second experiment
